@@ -41,6 +41,21 @@ def impl_trace(job):
             tp = np.array([f(x) for x in rec["tp"]])
             dt = float(tp[1] - tp[0])
             itf.py_set_dt(dt)
+            if t["id"] % 2 == 1:
+                # history: the same model and interface were simulated before in ANOTHER mode (not traced, not judged); a
+                # simulation leaves nothing behind in the model - every trajectory of the traced run is judged as usual
+                brandom.py_seed_random(seed + 1)
+                warm = {"ssa": "volume", "volume": "delay", "delay": "volume"}[kind]
+                if warm == "delay" and any(rx["dre"] for rx in rec["prog"]["rx"]):
+                    warm = "ssa"
+                if warm == "volume":
+                    v0 = Volume()
+                    v0.py_set_volume(f(t["V"]))
+                    VolumeSSASimulator().py_volume_simulate(itf, v0, tp)
+                elif warm == "delay":
+                    DelaySSASimulator().py_delay_simulate(itf, ArrayDelayQueue.setup_queue(len(rec["prog"]["rx"]), len(tp), dt), tp)
+                else:
+                    SSASimulator().py_simulate(itf, tp)
             brandom.py_seed_random(seed)
             py_verif_trace(True)
             pending = None
